@@ -224,6 +224,45 @@ func cuckooCase(c *Ctx, cfg cuckooCfg) {
 				c.branch("reattached-handle")
 			}
 		}
+		if c.rng.Intn(25) == 0 {
+			// continue the history on an imported copy (imported into a handle that already
+			// held another filter of other dimensions): all later transitions are still checked
+			if doc, err := h.Export(); err == nil {
+				var nh cuckooHandle
+				var ierr error
+				res := safely(func() {
+					if _, isRedis := h.(cuckooRedis); isRedis {
+						f2, e2 := gostatix.NewCuckooFilterRedisWithRetries(3, 3, 2, 7)
+						if e2 != nil {
+							ierr = e2
+							return
+						}
+						f2.Insert([]byte("previous tenant"), false)
+						ierr = f2.Import(doc, true)
+						nh = cuckooRedis{f2}
+					} else {
+						f2 := gostatix.NewCuckooFilterWithRetries(3, 3, 2, 7)
+						f2.Insert([]byte("previous tenant"), false)
+						ierr = f2.Import(doc)
+						nh = cuckooMem{f2}
+					}
+				})
+				if res.panicked || ierr != nil || nh == nil {
+					c.fail([]string{"C10"}, "cuckoo-import-fails", fmt.Sprintf("%s: Import of the filter's own export failed: %v %v", cfg, res.panicVal, ierr), replayOf())
+					return
+				}
+				a, _ := cuckooSnap(h)
+				bb, _ := cuckooSnap(nh)
+				if a.doc.bucketsStr() != bb.doc.bucketsStr() || a.length != bb.length {
+					c.fail([]string{"C10"}, "cuckoo-import-differs", fmt.Sprintf("%s: imported copy differs from the original", cfg), replayOf())
+					return
+				}
+				h = nh
+				handles = []cuckooHandle{h}
+				hist = append(hist, "export+import-into-used-handle")
+				c.branch("continued-on-imported-copy")
+			}
+		}
 		via := pick()
 		pre, err := cuckooSnap(h)
 		if err != nil {
